@@ -96,7 +96,8 @@ def _gen(rng, big=False):
     rng.shuffle(order)
     return {'vars': vars_, 'ast': ast, 'text': text, 'signals': signals, 'signals2': sig2, 'fired': fired,
             'cls': 'ct_off' if rng.random() < 0.7 else 'ct', 'order': order, 'again': again,
-            'fine_consts': rng.random() < 0.08 and any(x[0] in sg.TUN + sg.TBIN for x in sg.walk(ast))}
+            'fine_consts': rng.random() < 0.08 and any(x[0] in sg.TUN + sg.TBIN for x in sg.walk(ast)),
+            'poisoned_first': rng.choice(sg.vars_of(ast)) if rng.random() < 0.12 else None}
 
 
 def _check(r, sc, text, signals, ref, s0, e0, tag, keep=None):
@@ -107,6 +108,13 @@ def _check(r, sc, text, signals, ref, s0, e0, tag, keep=None):
         desc['unit'] = 'us'
         text = desc['spec']
         r.probes['bounds_are_declared_constants_below_1e-6'] += 1
+    if sc.get('poisoned_first') and tag == 'recorded':
+        # the object first evaluated a damaged log (a sensor delivered None from some instant on): evaluate() raised half-way
+        pv = sc['poisoned_first']
+        bad = dict((v, ([[t, (None if i >= len(signals[v]) // 2 else x)] for i, (t, x) in enumerate(signals[v])] if v == pv else signals[v]))
+                   for v in signals)
+        desc['prior'] = {'signals': bad, 'order': sc.get('order'), 'unit': desc.get('unit')}
+        r.faults['object_failed_on_a_damaged_log_before'] += 1
     try:
         spec = keep[0] if keep else M.build(desc)
         if keep is not None and not keep:
@@ -202,6 +210,10 @@ def shrinks(sc):
         if s.get('fine_consts'):
             c = copy.deepcopy(s)
             c['fine_consts'] = False
+            yield c
+        if s.get('poisoned_first'):
+            c = copy.deepcopy(s)
+            c['poisoned_first'] = None
             yield c
         if s.get('signals2'):
             c = copy.deepcopy(s)
